@@ -30,6 +30,12 @@ func main() {
 	}
 	wiretok.Print("streams", ss)
 	wiretok.PrintMakes("makes", ss)
+	// the parts of the wallet checkpoint: the owned-coins map (a method on a map type the deep
+	// inliner does not follow) and one coin
+	wiretok.Print("walletParts", []wiretok.Stream{
+		wiretok.Pair("wallet.OwnedCoins", "wallet", "OwnedCoins", "Serialize", "Deserialize"),
+		wiretok.Pair("wallet.Coin", "wallet", "Coin", "Serialize", "Deserialize"),
+	})
 	// make(…) calls of the checkpoint readers whose size / capacity argument is not an integer literal
 	var sized []string
 	for _, st := range ss {
